@@ -363,6 +363,119 @@ _ICMP_SYM = {
 ONE1 = None
 
 
+_VS_MEMO = {}
+_VS_CAP = 1024
+
+
+def value_set(t):
+    """Over-approximate set of values of BV term t, computed syntactically (no solver); None if too large/unknown."""
+    k = t.get_id()
+    if k in _VS_MEMO:
+        return _VS_MEMO[k][1]
+    r = _value_set(t)
+    _VS_MEMO[k] = (t, r)
+    if len(_VS_MEMO) > 200000:
+        _VS_MEMO.clear()
+    return r
+
+
+def _value_set(t):
+    if not z3.is_bv(t):
+        return None
+    w = t.size()
+    m = (1 << w) - 1
+    if z3.is_bv_value(t):
+        return frozenset((t.as_long(),))
+    d = t.decl().kind()
+    ch = t.children()
+    if not ch:
+        return frozenset(range(1 << w)) if w <= 8 else None
+    if d == z3.Z3_OP_ITE:
+        a, b = value_set(ch[1]), value_set(ch[2])
+        if a is None or b is None or len(a) + len(b) > _VS_CAP:
+            return None
+        return a | b
+    if d == z3.Z3_OP_SELECT:
+        return frozenset(range(1 << w)) if w <= 8 else None
+    sets = [value_set(c) for c in ch]
+    if any(x is None for x in sets):
+        # a few ops bound the result regardless of an unknown operand
+        if d == z3.Z3_OP_BAND:
+            known = [x for x in sets if x is not None]
+            if known and all(len(x) == 1 for x in known):
+                mk = m
+                for x in known:
+                    mk &= next(iter(x))
+                if bin(mk).count("1") <= 10:
+                    bits = [i for i in range(w) if mk >> i & 1]
+                    out = set()
+                    for c in range(1 << len(bits)):
+                        out.add(sum(((c >> j) & 1) << b for j, b in enumerate(bits)))
+                    return frozenset(out)
+        if d == z3.Z3_OP_BUREM or d == z3.Z3_OP_BUREM_I:
+            if sets[1] is not None and len(sets[1]) == 1 and 0 < next(iter(sets[1])) <= _VS_CAP:
+                return frozenset(range(next(iter(sets[1]))))
+        if d == z3.Z3_OP_ZERO_EXT:
+            return None
+        return None
+    n = 1
+    for x in sets:
+        n *= len(x)
+    if n > 65536:
+        return None
+
+    def fold(f):
+        acc = sets[0]
+        for x in sets[1:]:
+            acc = frozenset(f(a, b) & m for a in acc for b in x)
+            if len(acc) > _VS_CAP:
+                return None
+        return acc
+
+    if d == z3.Z3_OP_BADD:
+        return fold(lambda a, b: a + b)
+    if d == z3.Z3_OP_BMUL:
+        return fold(lambda a, b: a * b)
+    if d == z3.Z3_OP_BSUB:
+        return fold(lambda a, b: a - b)
+    if d == z3.Z3_OP_BAND:
+        return fold(lambda a, b: a & b)
+    if d == z3.Z3_OP_BOR:
+        return fold(lambda a, b: a | b)
+    if d == z3.Z3_OP_BXOR:
+        return fold(lambda a, b: a ^ b)
+    if d == z3.Z3_OP_BSHL:
+        return fold(lambda a, b: a << b if b < w else 0)
+    if d == z3.Z3_OP_BLSHR:
+        return fold(lambda a, b: a >> b if b < w else 0)
+    if d in (z3.Z3_OP_BUREM, z3.Z3_OP_BUREM_I):
+        return fold(lambda a, b: a % b if b else a)
+    if d in (z3.Z3_OP_BUDIV, z3.Z3_OP_BUDIV_I):
+        return fold(lambda a, b: a // b if b else m)
+    if d == z3.Z3_OP_ZERO_EXT:
+        return sets[0]
+    if d == z3.Z3_OP_SIGN_EXT:
+        cw = ch[0].size()
+        return frozenset((a | (m & ~((1 << cw) - 1))) if a >> (cw - 1) & 1 else a for a in sets[0])
+    if d == z3.Z3_OP_EXTRACT:
+        hi, lo = t.params()
+        out = frozenset((a >> lo) & ((1 << (hi - lo + 1)) - 1) for a in sets[0])
+        return out
+    if d == z3.Z3_OP_CONCAT:
+        acc = sets[0]
+        for x, c in zip(sets[1:], ch[1:]):
+            cw = c.size()
+            acc = frozenset((a << cw) | b for a in acc for b in x)
+            if len(acc) > _VS_CAP:
+                return None
+        return acc
+    if d == z3.Z3_OP_BNOT:
+        return frozenset(~a & m for a in sets[0])
+    if d == z3.Z3_OP_BNEG:
+        return frozenset(-a & m for a in sets[0])
+    return None
+
+
 class Machine:
     """One execution (one path) of a harness entry point."""
 
@@ -387,6 +500,29 @@ class Machine:
         self.allocas = []  # (base, size) of live stack allocations
         self.symbolic_alloc = {}  # allocation size -> name: heap blocks of that size start with arbitrary (symbolic) contents
         self.sym_alloc_seq = 0
+
+    def snapshot(self):
+        """State after a (fork-free) run of a preparation entry point; resume() starts a new path from it."""
+        return {"mem": dict(self.mem), "heap": self.heap, "heap_sizes": dict(self.heap_sizes), "arrays": [list(o) for o in self.arrays],
+                "errno_addr": self.errno_addr, "tls_keys": dict(self.tls_keys), "steps": self.steps, "sym_alloc_seq": self.sym_alloc_seq}
+
+    def adopt_array(self, base, size, sel):
+        """Put [base, base+size) into array mode; sel(offset BV64 term) -> BV8 term gives the contents; flat cells there are dropped."""
+        x = z3.BitVec("__i", 64)
+        self.arrays.append([base, base + size, z3.Lambda([x], sel(x - z3.BitVecVal(base, 64)))])
+        for a in range(base, base + size):
+            self.mem.pop(a, None)
+
+    def resume(self, snap):
+        self.mem = dict(snap["mem"])
+        self.heap = snap["heap"]
+        self.heap_sizes = dict(snap["heap_sizes"])
+        self.arrays = [list(o) for o in snap["arrays"]]
+        self.errno_addr = snap["errno_addr"]
+        self.tls_keys = dict(snap["tls_keys"])
+        self.sym_alloc_seq = snap["sym_alloc_seq"]
+        self.sp = STACK_BASE
+        self.allocas = []
 
     # ---------------------------------------------------------------- memory
     def _array_for(self, addr):
@@ -516,16 +652,40 @@ class Machine:
             raise core.Inconclusive("path condition became unsatisfiable")
         mdl = eng.solver.model()
         a0 = mdl.eval(sp, model_completion=True).as_long()
-        found = self.find_object(a0)
+        ao = self._array_for(a0)
+        found = (ao[0], ao[1] - ao[0]) if ao is not None else self.find_object(a0)
         if found is None:
             raise Unsupported(f"symbolic pointer may point outside every allocation (sample {a0:#x})")
         base, size = found
         inside = z3.And(z3.UGE(sp, z3.BitVecVal(base, 64)), z3.ULE(sp + z3.BitVecVal(n, 64), z3.BitVecVal(base + size, 64)),
                         z3.ULE(sp, sp + z3.BitVecVal(n, 64)))
         if eng.decide(inside):
-            return sp, self.to_array_mode(base, size)
+            return sp, (ao if ao is not None else self.to_array_mode(base, size))
         # the pointer leaves that object on this path: try again (another object / out of bounds)
         return self.sym_access(p, n)
+
+    def _merge_candidates(self, p, n):
+        """Small syntactic value set of the symbolic pointer p, every candidate inside flat (non array-mode)
+        mapped memory -> (simplified pointer, sorted candidates); else None.  Sound: the set over-approximates."""
+        sp = z3.simplify(p)
+        if z3.is_bv_value(sp):
+            return None
+        vs = value_set(sp)
+        if vs is None or len(vs) > 1024:
+            return None
+        if self.arrays:
+            lo, hi = min(vs), max(vs)
+            for obj in self.arrays:
+                if obj[0] <= lo and hi + n <= obj[1]:
+                    return sp, obj  # every candidate inside one array-mode object: index it directly
+        for a in vs:
+            for obj in self.arrays:
+                if obj[0] <= a < obj[1]:
+                    return None
+            f = self.find_object(a)
+            if f is None or a + n > f[0] + f[1]:
+                return None
+        return sp, sorted(vs)
 
     def load_sym(self, p, t):
         t0 = self.layout.resolve(t)
@@ -533,6 +693,20 @@ class Machine:
             return self.load_typed(self.resolve_addr(p), t)
         bits = t0[1] if t0[0] == "int" else 64
         n = (bits + 7) // 8
+        mc = self._merge_candidates(p, n)
+        if mc is not None and any(mc[1] is o for o in self.arrays):
+            sp, obj = mc
+            parts = [z3.Select(obj[2], sp + z3.BitVecVal(i, 64)) for i in range(n)]
+            v = z3.Concat(*reversed(parts)) if n > 1 else parts[0]
+            return z3.Extract(bits - 1, 0, v) if bits % 8 else v
+        if mc is not None:
+            # table lookup with few possible addresses: merge into an if-then-else chain instead of forking
+            sp, cands = mc
+            vals = [to_term(self.load_typed(a, t), bits) for a in cands]
+            r = vals[-1]
+            for a, v in zip(reversed(cands[:-1]), reversed(vals[:-1])):
+                r = z3.If(sp == z3.BitVecVal(a, 64), v, r)
+            return r
         a, obj = self.sym_access(p, n)
         if obj is None:
             return self.load_typed(a, t)
@@ -546,6 +720,22 @@ class Machine:
             return self.store_typed(self.resolve_addr(p), t, v)
         bits = t0[1] if t0[0] == "int" else 64
         n = (bits + 7) // 8
+        mc = self._merge_candidates(p, n)
+        if mc is not None and any(mc[1] is o for o in self.arrays):
+            sp, obj = mc
+            tv = to_term(v, bits)
+            if bits % 8:
+                tv = z3.ZeroExt(8 * n - bits, tv)
+            for i in range(n):
+                obj[2] = z3.Store(obj[2], sp + z3.BitVecVal(i, 64), z3.Extract(8 * i + 7, 8 * i, tv))
+            return
+        if mc is not None:
+            sp, cands = mc
+            tv = to_term(v, bits)
+            for a in cands:
+                old = to_term(self.load_typed(a, t), bits)
+                self.store_typed(a, t, z3.If(sp == z3.BitVecVal(a, 64), tv, old))
+            return
         a, obj = self.sym_access(p, n)
         if obj is None:
             return self.store_typed(a, t, v)
@@ -716,8 +906,24 @@ class Machine:
         if op == "x86":
             return None
         if op in ("memcpy", "memmove"):
-            dst, src, n = self.resolve_addr(args[0]), self.resolve_addr(args[1]), args[2]
-            n = self.resolve_addr(n)
+            n = self.resolve_addr(args[2])
+            if is_sym(args[0]) and not is_sym(args[1]) and n <= 256:
+                mc = self._merge_candidates(args[0], n)
+                if mc is not None:
+                    # block copy to a table slot chosen by symbolic state: merge over the possible slots instead of forking
+                    sp, where = mc
+                    vals = [to_term(self.load_bytes(args[1] + i, 1), 8) for i in range(n)]
+                    if any(where is o for o in self.arrays):
+                        for i, v in enumerate(vals):
+                            where[2] = z3.Store(where[2], sp + z3.BitVecVal(i, 64), v)
+                    else:
+                        for a in where:
+                            hit = sp == z3.BitVecVal(a, 64)
+                            for i, v in enumerate(vals):
+                                old = to_term(self.load_bytes(a + i, 1), 8)
+                                self.store_bytes(a + i, z3.simplify(z3.If(hit, v, old)), 1)
+                    return None
+            dst, src = self.resolve_addr(args[0]), self.resolve_addr(args[1])
             if self.arrays and (self._array_for(src) is not None or self._array_for(dst) is not None):
                 vals = [self.load_bytes(src + i, 1) for i in range(n)]
                 for i, v in enumerate(vals):
